@@ -83,6 +83,9 @@ def units(tier, seed):
                          sprout={"kind": ("simple", "nbc")[(k // 2) % 2], "L": 2}, levelshift=bool(k % 2), pmut=(1.0, 0.5)[(k // 3) % 2], hib=bool(k % 7 == 0))
                 if k % 5 == 0:
                     d["cutoff"] = [20 + k % 17] + [15 + k % 11] * (len(eng) - 1)
+                if k % 4 == 1:
+                    # the root's problem inside a precision wrapper whose declared optimum is not 0 (and is beaten by some points)
+                    d["precision"] = {"opt": (0.75, -3.0, 1000.0)[(k // 4) % 3], "eps": 1e-3}
                 if len(eng) == 3 and "LOC" == eng[2] and k % 2:
                     d["sprout"] = {"kind": "nbclocal", "L": 2}
                 descs.append(d)
